@@ -353,6 +353,63 @@ def run_json(binpath, obj, timeout=600, args=None, env=None):
     return rc, None, out
 
 
+def verbose_pick(i, share=(2, 5)):
+    """position i of a batch runs under the formatting logger (a fixed share, spread over the batch)"""
+    return (i * 7919 + 3) % share[1] < share[0]
+
+
+def run_json_verbose_share(ctx, binpath, obj, key="cases", out_key="outs", share=(2, 5), quiet_only=(), timeout=600, pick=None):
+    """Run a driver of harness/cmd twice and merge: the items of obj[key] at the positions chosen by `pick` (default:
+    verbose_pick, 2 in 5) go to a process of their own whose input carries `"verbose": true` - hx.ReadInput then installs the
+    logger that really FORMATS every debug / trace message of the container and discards the text (stringification side
+    effects of the library's log statements are exercised; outcomes as under hx.Quiet()).  The driver must answer one element
+    of result[out_key] per item, in input order; every other key of the result is taken from the quiet run; the keys in
+    `quiet_only` are sent to the quiet run only.  Returns (rc, result, raw, positions_run_verbose); result is None when
+    either run produced none.  A note for the evidence file is appended to ctx.notes."""
+    from concurrent.futures import ThreadPoolExecutor
+    items = obj[key]
+    pick = pick or (lambda i: verbose_pick(i, share))
+    loud = [i for i in range(len(items)) if pick(i)]
+    loudset = set(loud)
+    quiet = [i for i in range(len(items)) if i not in loudset]
+
+    def one(verbose):
+        idx = loud if verbose else quiet
+        if verbose and not idx:
+            return 0, {out_key: []}, ""
+        doc = dict(obj)
+        doc[key] = [items[i] for i in idx]
+        if verbose:
+            doc["verbose"] = True
+            for k in quiet_only:
+                if k in doc:
+                    doc[k] = []
+        return run_json(binpath, doc, timeout=timeout)
+
+    with ThreadPoolExecutor(max_workers=2) as ex:
+        (rcq, rq, rawq), (rcv, rv, rawv) = list(ex.map(one, (False, True)))
+    if os.environ.get("VERIF_HX_TRACE") == "1":      # diagnostics: how many driver processes of each run installed the formatting logger
+        ctx.log("hx trace (%s): formatting logger installed in %d processes of the verbose run, %d of the quiet run" % (
+            os.path.basename(binpath), rawv.count("@@HXVERBOSE"), rawq.count("@@HXVERBOSE")))
+    if rq is None or rv is None:
+        return (rcq or rcv or 1), None, (rawq if rq is None else rawv), loud
+    oq, ov = rq.get(out_key) or [], rv.get(out_key) or []
+    if len(oq) != len(quiet) or len(ov) != len(loud):
+        return (rcq or rcv or 1), None, ("driver answered %d+%d outs for %d+%d cases\n" % (len(oq), len(ov), len(quiet), len(loud))
+                                        + rawq[-1500:] + rawv[-1500:]), loud
+    merged = [None] * len(items)
+    for i, o in zip(quiet, oq):
+        merged[i] = o
+    for i, o in zip(loud, ov):
+        merged[i] = o
+    res = dict(rq)
+    res[out_key] = merged
+    ctx.notes.append("%d of %d driver cases (%s) ran under a logger that formats every debug / trace message of the container "
+                     "(hx.FmtLogger, output discarded); observations and oracles are the same as under the quiet logger"
+                     % (len(loud), len(items), os.path.basename(binpath)))
+    return rcq or rcv, res, rawq + rawv, loud
+
+
 # ------------------------------------------------------------------------------------------------
 # Coq term rendering helpers
 
